@@ -86,6 +86,11 @@ class RosenbergStrong(Pairing):
         # note:: I add epsilon in "m = floor(z**(1/dim) + epsilon)" because of overflow.
         # For example 64**(1/3) gives 3.99999999 which will be rounded to 3 instead of 4
         m = floor(z ** (1 / dim) + self._epsilon)
+        # the floating-point root (and the epsilon) can be off by one for large z: settle it with integers
+        while m**dim > z:
+            m -= 1
+        while (m + 1) ** dim <= z:
+            m += 1
         m_d1 = m ** (dim - 1)
         m_d = m * m_d1
         aux = (m + 1) ** (dim - 1) - m_d1
